@@ -4,6 +4,7 @@ package trzsz
 
 import (
 	"bytes"
+	"encoding/json"
 	"io"
 	"os"
 	"sync"
@@ -243,4 +244,109 @@ func VerifDecodeFrames(binary, compress bool, table *VerifEscapeTable, frames []
 			return out, err
 		}
 	}
+}
+
+// ---- C02: a real sendFiles and a real recvFiles joined in process by a link the harness owns ----
+
+// VerifLinkResult is what one in-process transfer left behind.
+type VerifLinkResult struct {
+	SendOK, RecvOK   bool      // sendFiles / recvFiles returned nil: that side reports the files as saved
+	SendErr, RecvErr string    // the error text otherwise (diagnostics only)
+	Sent             [2][]byte // what each side wrote: [0] sender -> receiver, [1] receiver -> sender
+	Deliv            [2][]byte // what reached the other side after the filter
+	Hung             bool
+}
+
+type verifFaultLink struct {
+	mu     sync.Mutex
+	dir    int
+	peer   *trzszTransfer
+	res    *VerifLinkResult
+	filter func(dir int, p []byte) [][]byte
+}
+
+func (l *verifFaultLink) Write(p []byte) (int, error) {
+	l.mu.Lock()
+	defer l.mu.Unlock()
+	l.res.Sent[l.dir] = append(l.res.Sent[l.dir], p...)
+	chunks := [][]byte{append([]byte(nil), p...)}
+	if l.filter != nil {
+		chunks = l.filter(l.dir, append([]byte(nil), p...))
+	}
+	for _, c := range chunks {
+		if len(c) > 0 {
+			l.res.Deliv[l.dir] = append(l.res.Deliv[l.dir], c...)
+			l.peer.addReceivedData(c, false)
+		}
+	}
+	return len(p), nil
+}
+
+// VerifFaultPair transfers the source paths into destDir with two trzszTransfer objects that
+// share the given transfer configuration (JSON as in the CFG line).  Every write of either side
+// goes through filter (nil = deliver as written).  A side that fails tells its peer (clientError),
+// as the programs do.
+func VerifFaultPair(cfgJSON []byte, srcPaths []string, destDir string, filter func(dir int, p []byte) [][]byte,
+	deadline time.Duration) (*VerifLinkResult, error) {
+	res := &VerifLinkResult{}
+	s2r := &verifFaultLink{dir: 0, res: res, filter: filter}
+	r2s := &verifFaultLink{dir: 1, res: res, filter: filter}
+	s2r.mu, r2s.mu = sync.Mutex{}, sync.Mutex{}
+	sender := newTransfer(s2r, nil, false, nil)
+	receiver := newTransfer(r2s, nil, false, nil)
+	s2r.peer, r2s.peer = receiver, sender
+	for _, t := range []*trzszTransfer{sender, receiver} {
+		t.cleanTimeout = 20 * time.Millisecond
+		if err := json.Unmarshal(cfgJSON, &t.transferConfig); err != nil {
+			return nil, err
+		}
+	}
+	files, err := checkPathsReadable(srcPaths, false)
+	if err != nil {
+		return nil, err
+	}
+	var wg sync.WaitGroup
+	wg.Add(2)
+	var sendErr, recvErr error
+	go func() {
+		defer wg.Done()
+		_, sendErr = sender.sendFiles(files, nil)
+		if sendErr != nil {
+			sender.clientError(sendErr)
+		}
+	}()
+	go func() {
+		defer wg.Done()
+		_, recvErr = receiver.recvFiles(destDir, nil)
+		if recvErr != nil {
+			receiver.clientError(recvErr)
+		}
+	}()
+	done := make(chan struct{})
+	go func() { wg.Wait(); close(done) }()
+	select {
+	case <-done:
+	case <-time.After(deadline):
+		res.Hung = true
+		sender.stopTransferringFiles(false)
+		receiver.stopTransferringFiles(false)
+		select {
+		case <-done:
+		case <-time.After(3 * time.Second):
+			return res, nil
+		}
+	}
+	// both links share res: take the locks before reading what they recorded
+	s2r.mu.Lock()
+	r2s.mu.Lock()
+	defer s2r.mu.Unlock()
+	defer r2s.mu.Unlock()
+	res.SendOK, res.RecvOK = sendErr == nil, recvErr == nil
+	if sendErr != nil {
+		res.SendErr = sendErr.Error()
+	}
+	if recvErr != nil {
+		res.RecvErr = recvErr.Error()
+	}
+	return res, nil
 }
